@@ -22,7 +22,8 @@ EXPLANATION = (
     "the symbols of the vanilla copy in qubit-index order, with uncompute off and no return value, and builds one "
     "bool argument per symbol in that order; (DP-LANG) the decompiler emits only Not/Xor/And/Symbol and "
     "custom_simplify_logic2 lets sympy's simplify_logic result through only under a head guard, so the profile-less "
-    "re-synthesis path never meets a head or arity the compiler cannot take.  It does NOT decide unitary equivalence "
+    "re-synthesis path never meets a head or arity the compiler cannot take; (SB-INVOLUTION) a peephole that drops a "
+    "gate pair under a class guard admits only classes all of whose subclasses square to the identity.  It does NOT decide unitary equivalence "
     "(e.g. a section that is a pure relabelling being replaced by nothing is a property of the compiled result)."
 )
 NOT_DECIDED = "unitary equivalence of the result"
